@@ -1,6 +1,8 @@
 // Known-finding classes for the elementary functions (see classify.hpp for the discipline): a failing
 // point is a KNOWN-FINDING only inside the listed input class AND within the listed signature.
 #pragma once
+#include <complex>
+
 #include "mathlib.hpp"
 
 namespace xv
@@ -11,6 +13,8 @@ namespace xv
         MF_TGAMMA_POLE_UNDERFLOW,
         MF_LGAMMA32_TINY_NEGATIVE,
         MF_LGAMMA_REFLECTION_CANCEL,
+        MF_CTANH_NEAR_POLE,
+        MF_CPOW_LARGE_EXPONENT_LOG,
     };
     inline const std::vector<FindingDef>& math_findings()
     {
@@ -19,6 +23,8 @@ namespace xv
             { "tgamma-pole-intermediate-overflow", "tgamma next to a pole below -large_limit returns 0: Gamma(|x|) overflows inside the reflection formula although the result is a normal number" },
             { "lgamma-f32-tiny-negative", "float lgamma for -2^-67 < x < 0: the product x*sin(pi x) underflows, result +inf (product flushed to 0) or off by less than ln 2 (product denormal)" },
             { "lgamma-reflection-cancellation", "lgamma for negative x subtracts lgamma(|x|) from a logarithm of similar size: the error is a few ulp of lgamma(|x|), more than the bound in ulp of the (smaller) result" },
+            { "complex-tan-tanh-near-pole", "complex tan/tanh next to a pole: the denominator cosh(2x) + cos(2y) cancels, the relative error grows like |result|^2 eps" },
+            { "complex-pow-real-exponent", "complex pow(z, y) = exp(y log z): the relative error grows like |y ln|z|| eps" },
         };
         return f;
     }
@@ -93,6 +99,18 @@ namespace xv
         (void)fn;
         (void)x;
         (void)obs;
+        return -1;
+    }
+    // y: the real exponent of c.pow (0 otherwise)
+    inline int classify_complex(const Violation& v, const std::string& fn, std::complex<long double> z, std::complex<long double> exact, std::complex<long double> obs, long double y = 0)
+    {
+        const long double eps = v.elem == XV_F32 ? 0x1p-23L : 0x1p-52L;
+        const long double mw = std::abs(exact);
+        const long double err = fmaxl(fabsl(obs.real() - exact.real()), fabsl(obs.imag() - exact.imag())) / (eps * (mw > 1 ? mw : 1.0L));
+        if ((fn == "c.tan" || fn == "c.tanh") && mw > 4 && std::isfinite((double)err) && err <= 32 + mw * mw / 2)
+            return MF_CTANH_NEAR_POLE;
+        if (fn == "c.pow" && std::isfinite((double)err) && std::abs(z) > 0 && err <= 32 + 2 * fabsl(y * logl(std::abs(z))))
+            return MF_CPOW_LARGE_EXPONENT_LOG;
         return -1;
     }
     inline int classify_math_ticks(const Violation& v, const MFun& f, unsigned ticks)
